@@ -613,6 +613,22 @@ func (g gen) real(l *[]string) seq.Seq[int] {
 			return seq.For(func() bool { n++; return n <= 2 }, func() {}, body)
 		})
 	}
+	if strings.HasSuffix(g.End, "-in-combine") || strings.HasSuffix(g.End, "-in-nested-combine") {
+		// the generator is the FIRST half of a Combine: Return / ReturnValue must skip the second half(s)
+		// and keep the return value
+		base := strings.TrimSuffix(strings.TrimSuffix(g.End, "-in-combine"), "-in-nested-combine")
+		inner := gen{Name: g.Name, Segs: g.Segs, End: base}.real(l)
+		tail := func(tag string) seq.Seq[int] {
+			return seq.Delay(func() seq.Seq[int] {
+				*l = append(*l, tag)
+				return seq.Bind(77, seq.Normal[int])
+			})
+		}
+		if strings.HasSuffix(g.End, "-in-nested-combine") {
+			return seq.Combine(seq.Combine(inner, tail("TAIL1")), tail("TAIL2"))
+		}
+		return seq.Combine(inner, tail("TAIL"))
+	}
 	var from func(i int, carry int) seq.Seq[int]
 	from = func(i int, carry int) seq.Seq[int] {
 		if i == len(g.Segs) {
@@ -688,7 +704,7 @@ func (m *model) advance(recv int) bool {
 		}
 		m.state = 2
 		m.current = 0
-		if m.g.End == "retval" || m.g.End == "retval-in-loop" {
+		if strings.HasPrefix(m.g.End, "retval") {
 			m.result = retVal
 		}
 		return false
@@ -777,6 +793,11 @@ func family() []gen {
 	gs = append(gs, gen{Name: "n0-retval-in-loop", Segs: nil, End: "retval-in-loop"})
 	gs = append(gs, gen{Name: "n1-bind-retval-in-loop", Segs: []seg{{false}}, End: "retval-in-loop"})
 	gs = append(gs, gen{Name: "n2-echo-retval-in-loop", Segs: []seg{{true}, {false}}, End: "retval-in-loop"})
+	for _, e := range []string{"retval-in-combine", "return-in-combine", "retval-in-nested-combine"} {
+		gs = append(gs, gen{Name: "n0-" + e, Segs: nil, End: e})
+		gs = append(gs, gen{Name: "n1-bind-" + e, Segs: []seg{{false}}, End: e})
+		gs = append(gs, gen{Name: "n2-echo-bind-" + e, Segs: []seg{{true}, {false}}, End: e})
+	}
 	gs = append(gs, gen{Name: "loop-echo", Segs: []seg{{true}}, End: "loop"})
 	gs = append(gs, gen{Name: "loop-bind-echo", Segs: []seg{{false}, {true}}, End: "loop"})
 	return gs
